@@ -43,7 +43,7 @@ var c19Omitted = map[string]string{
 }
 
 func runC19(c *core.Check) {
-	prog := c.Load("./printer", "./parser", "./ast")
+	prog := c.Load("./printer", "./parser", "./ast", "go/printer")
 	ppk, xpk, apk := prog.Pkg("./printer"), prog.Pkg("./parser"), prog.Pkg("./ast")
 	if ppk == nil || xpk == nil || apk == nil {
 		return
@@ -74,6 +74,7 @@ func runC19(c *core.Check) {
 	// printer with the ParenExpr possibly stripped by the formatter's normalisations, and the printer's own
 	// parenthesisation must then keep the tree.
 	precedenceRules(c, prog)
+	adjacencyRule(c, prog) // `- -a`, `& ^x`, `a - -b*c` in an index: parsed sources contain these too
 	flagGates(c, prog, ppk, apk)
 	// the c"…" / py"…" prefix of a string literal is part of the literal's own text: it is decided from the node's Kind where
 	// the BasicLit is turned into text, not from printer state (p.lastTok) at write time — comments flushed in between are
